@@ -151,6 +151,13 @@ func (txn *Txn) columnAt(columnName string) (*column, bool) {
 	return column, true
 }
 
+// clearIndex empties the selection but keeps its size, so that a later union can widen it again
+func (txn *Txn) clearIndex() {
+	for i := range txn.index {
+		txn.index[i] = 0
+	}
+}
+
 // With applies a logical AND operation to the current query and the specified index.
 func (txn *Txn) With(columns ...string) *Txn {
 	txn.initialize()
@@ -160,7 +167,7 @@ func (txn *Txn) With(columns ...string) *Txn {
 				dst.And(src)
 			})
 		} else {
-			txn.index.Clear()
+			txn.clearIndex()
 		}
 	}
 	return txn
@@ -251,7 +258,7 @@ func (txn *Txn) WithValue(column string, predicate func(v interface{}) bool) *Tx
 	txn.initialize()
 	c, ok := txn.columnAt(column)
 	if !ok {
-		txn.index.Clear()
+		txn.clearIndex()
 		return txn
 	}
 
@@ -273,7 +280,7 @@ func (txn *Txn) WithFloat(column string, predicate func(v float64) bool) *Txn {
 	txn.initialize()
 	c, ok := txn.columnAt(column)
 	if !ok || !c.IsNumeric() {
-		txn.index.Clear()
+		txn.clearIndex()
 		return txn
 	}
 
@@ -289,7 +296,7 @@ func (txn *Txn) WithInt(column string, predicate func(v int64) bool) *Txn {
 	txn.initialize()
 	c, ok := txn.columnAt(column)
 	if !ok || !c.IsNumeric() {
-		txn.index.Clear()
+		txn.clearIndex()
 		return txn
 	}
 
@@ -305,7 +312,7 @@ func (txn *Txn) WithUint(column string, predicate func(v uint64) bool) *Txn {
 	txn.initialize()
 	c, ok := txn.columnAt(column)
 	if !ok || !c.IsNumeric() {
-		txn.index.Clear()
+		txn.clearIndex()
 		return txn
 	}
 
@@ -321,7 +328,7 @@ func (txn *Txn) WithString(column string, predicate func(v string) bool) *Txn {
 	txn.initialize()
 	c, ok := txn.columnAt(column)
 	if !ok || !c.IsTextual() {
-		txn.index.Clear()
+		txn.clearIndex()
 		return txn
 	}
 
